@@ -55,4 +55,7 @@ S57 C05 quick k1_gridDisksUnsafe_r0$
 S58 C10 quick sum_edge$
 S59 C12 quick gridDiskDistancesSafe_r0_k1$
 S61 C17 quick polyexp_h0$
+S62 C04 quick itinit_r14$
+S63 C11 quick glue_isValidVertex$
+S64 C10 quick anydest_r1$
 T
